@@ -17,6 +17,10 @@ def build_obs(tier, tables=None):
                     obs.append(Ob("print-root%d-inst%d-pf%03x-ind%d" % (hr, hi, m, ind), "print_step.c",
                                   ["-DHAS_ROOT=%d" % hr, "-DHAS_INST1=%d" % hi, "-DPFMASK=%d" % m, "-DINDENT0=%d" % ind], unwind=11, checks="none",
                                   params={"root_has_filter": hr, "instance_has_own_filter": hi, "print_callback_mask": m, "start_indent": ind}))
+    # the instance with its own filter is the FIRST one: its later sibling falls back to the inherited filter
+    for hr in (0, 1, 2):
+        obs.append(Ob("print-root%d-ownfirst-pf000" % hr, "print_step.c", ["-DHAS_ROOT=%d" % hr, "-DHAS_INST1=1", "-DOWN_INST=0", "-DPFMASK=0", "-DINDENT0=%d" % (1 if hr == 2 else 0)], unwind=11, checks="none",
+                      params={"root_has_filter": hr, "instance_has_own_filter": "first instance", "print_callback_mask": 0, "start_indent": 1 if hr == 2 else 0}))
     # inheritance at any depth: the recursive print function entered with an inherited filter (root = an
     # intermediate context without a filter of its own)
     for hi in (0, 1):
